@@ -46,6 +46,12 @@ def record(env_name: str, n_envs: int, steps: int, seed: int) -> dict:
     atoms = {"FirstPpoRatioIsOne": bool(np.all(np.abs(ratio - 1.0) <= 1e-4)),
              "StoredValueIsPolicyValueOfStoredObservation": bool(np.allclose(np.asarray(v), np.asarray(flat.values), rtol=1e-5, atol=1e-5)),
              "AdvantagesAndReturnsAreFinite": bool(np.all(np.isfinite(np.asarray(flat.advantages))) and np.all(np.isfinite(np.asarray(flat.returns))))}
+    # the ratio PPO itself computes on this buffer with the unchanged policy (its own re-evaluation of the stored samples - with the
+    # recorded policy states and the recorded masks - not the harness's)
+    from lerax.algorithm import PPO
+    _, st = PPO.ppo_loss(policy, flat, False, 0.2, False, 0.5, 0.0)
+    atoms["FirstRatioInsidePpoLossIsOne"] = bool(abs(float(st.approx_kl)) <= 1e-5 and
+                                                 abs(float(st.policy_loss) + float(np.mean(np.asarray(flat.advantages)))) <= 1e-4 * (1 + abs(float(st.policy_loss))))
     masked_rows = 0
     if flat.action_masks is not None:
         m = np.asarray(flat.action_masks).astype(bool)
